@@ -8,9 +8,7 @@ What is faked  : the ssl context (`Config.get_ssl_context` replaced on the *inst
                  FakeCtx), whose wrap_socket() returns a FakeTlsSock: do_handshake() succeeds or raises
                  what the scenario says; getpeercert(True) returns the scenario's DER certificate;
                  application octets travel through the same scripted queues as FakeSock.
-Nothing in /repo is patched. The optional `shim_match_hostname` switch (exploration only, never set by
-the delivered check unless VERIF_C15_SHIM=1) installs a do-nothing `ssl.match_hostname` so that runs can
-go past defect D27 on Python >= 3.12.
+Nothing in /repo and nothing of the `ssl` module is patched.
 '''
 import datetime
 import ipaddress
@@ -174,21 +172,6 @@ class FakeCtx(object):
         return t
 
 
-class _Shim(object):
-    ''' exploration only: a do-nothing ssl.match_hostname (defect D27 work-around) '''
-
-    def __init__(self, on):
-        self.on = on and not hasattr(ssl, 'match_hostname')
-
-    def __enter__(self):
-        if self.on:
-            ssl.match_hostname = lambda cert, hostname: None
-
-    def __exit__(self, *a):
-        if self.on:
-            del ssl.match_hostname
-
-
 def native_available():
     return hasattr(ssl, 'match_hostname')
 
@@ -208,7 +191,7 @@ def contact_bytes(flags):
 class Run(object):
     ''' One scenario on one real ContactHandler. '''
 
-    def __init__(self, sc, shim=False):
+    def __init__(self, sc):
         self.sc = sc
         LOOP.reset()
         import dbus.service
@@ -231,7 +214,6 @@ class Run(object):
             kw['toaddr'] = (sc['peer_name'], 4556)
         self.h = session.ContactHandler(hdl_kwargs=kw, bus_kwargs=dict(conn=None, object_path='/verif/c15'))
         self.escaped = []
-        self.shim = _Shim(shim)
         self.trace = []
 
     # --- sources
@@ -260,8 +242,7 @@ class Run(object):
             return False
         src = rx[-1] if len(rx) > 1 else rx[0]
         src.obj.rx_script = [data]
-        with self.shim:
-            _ran, exc = LOOP.fire(src)
+        _ran, exc = LOOP.fire(src)
         src.obj.rx_script = []
         if exc is not None:
             self.escaped.append(type(exc).__name__)
@@ -292,9 +273,9 @@ class Run(object):
         }
 
 
-def run_scenario(sc, shim=False, probe_transfer=False):
+def run_scenario(sc, probe_transfer=False):
     ''' Drive one contact + session negotiation. Returns the observation dict. '''
-    r = Run(sc, shim=shim)
+    r = Run(sc)
     r.start()
     ch = contact_bytes(sc['peer_flags'])
     si = sess_init_bytes(sc.get('peer_node_raw') and bytes.fromhex(sc['peer_node_raw']) or sc['peer_node'])
